@@ -31,23 +31,24 @@ import (
 )
 
 type Proc struct {
-	Name     string            `json:"name"`
-	Kind     string            `json:"kind"` // src | psrc | cmd | gofunc | maptotags | substream | concat | splitter | fcomb | pcomb | selector | globber | f2p | c2p
-	Items    []string          `json:"items"`
-	Values   []string          `json:"values"`
-	Ins      []string          `json:"ins"`
-	Params   []string          `json:"params"`
-	Outs     []string          `json:"outs"`
-	Streams  []string          `json:"streams"` // out-ports that stream ({os:..})
-	Joins    map[string]string `json:"joins"`   // in-port -> separator
-	Cores    int               `json:"cores"`
-	Prepend  string            `json:"prepend"`
-	Suffix   string            `json:"suffix"`   // appended to the standard command pattern, e.g. "&& true"
-	Arg      string            `json:"arg"`      // kind specific (path, pattern, lines per split, ...)
-	OutDir   string            `json:"outdir"`   // directory prefix of outputs (default "o/")
-	Tags     map[string]string `json:"tags"`     // maptotags: tags to add (value may contain %id)
-	Paths    []string          `json:"paths"`    // src: explicit file paths (instead of items)
-	OutPaths map[string]string `json:"outpaths"` // cmd: explicit output path patterns by port (instead of the naming scheme)
+	Name         string            `json:"name"`
+	Kind         string            `json:"kind"` // src | psrc | cmd | gofunc | maptotags | substream | concat | splitter | fcomb | pcomb | selector | globber | f2p | c2p
+	Items        []string          `json:"items"`
+	Values       []string          `json:"values"`
+	Ins          []string          `json:"ins"`
+	Params       []string          `json:"params"`
+	Outs         []string          `json:"outs"`
+	Streams      []string          `json:"streams"` // out-ports that stream ({os:..})
+	Joins        map[string]string `json:"joins"`   // in-port -> separator
+	Cores        int               `json:"cores"`
+	Prepend      string            `json:"prepend"`
+	Suffix       string            `json:"suffix"`       // appended to the standard command pattern, e.g. "&& true"
+	DefaultNames bool              `json:"defaultnames"` // no SetOut: scipipe's default output names (in the working directory)
+	Arg          string            `json:"arg"`          // kind specific (path, pattern, lines per split, ...)
+	OutDir       string            `json:"outdir"`       // directory prefix of outputs (default "o/")
+	Tags         map[string]string `json:"tags"`         // maptotags: tags to add (value may contain %id)
+	Paths        []string          `json:"paths"`        // src: explicit file paths (instead of items)
+	OutPaths     map[string]string `json:"outpaths"`     // cmd: explicit output path patterns by port (instead of the naming scheme)
 }
 
 type Edge struct {
@@ -225,6 +226,9 @@ func main() {
 				}
 			}
 			for _, o := range p.Outs {
+				if p.DefaultNames {
+					continue
+				}
 				if pat, ok := p.OutPaths[o]; ok {
 					proc.SetOut(o, pat)
 				} else {
